@@ -8,6 +8,7 @@ interface part: rank table and tiling; the table is regenerated from /repo on ev
    are sensors at the origin, and what format_src_inputs / check_duplicates do. -/
 -/
 import MagpyVerif.Model.DictIface
+import MagpyVerif.Lemmas.DictIface
 import MagpyVerif.Gen.Ndim
 import MagpyVerif.Lemmas.Level2Shape
 import MagpyVerif.Lemmas.Iface
@@ -56,10 +57,175 @@ theorem dict_interface_tiling {α : Type} (n i : Nat) (hi : i < n) (g : Given α
 /-- stacks of different lengths (other than 1) are rejected -/
 theorem mismatched_lengths_rejected {α : Type} (a b : List α) (ha : a.length ≠ 1) (hb : b.length ≠ 1)
     (hab : a.length ≠ b.length) : vecLen [Given.stack a, Given.stack b] = none := by
-  simp [vecLen, Given.len?, ha, hb]
+  simp [vecLen, agree, Given.len?, ha, hb]
   exact fun h => hab h.symm
 
 example : vecLen [Given.stack [1, 2, 3], Given.single 5, Given.stack [7]] = some 3 := by decide
+
+/-! ### the whole functional call (`DictIface.call` = getBH_dict_level2, executed by the driver family `dict` and tied to
+the real function by the `dict` stream) -/
+section dictcall
+variable {G V α : Type}
+
+/-- the tiled pose rows are the picked values: `dict_interface_tiling` in the form used below -/
+theorem pose_rows_are_picked {β : Type} (n i : Nat) (hi : i < n) (g : Given β) (hg : ∀ l, g.len? = some l → l = n) :
+    (rows n g).length = n ∧ (rows n g)[i]? = pick i g :=
+  ⟨(rows_spec n g hg).1, (rows_spec n g hg).2 i hi⟩
+
+/-- **what the field function receives for one keyword** (the "i-th parameter set"): for the j-th keyword `k = a` (a
+well-formed float array; `e` the table entry of `k`, 1 if `k` is in no table) and every row `i < n`:
+* rank = e and length ≠ 1 — a stack: its length IS n and row i is `a[i]`;
+* rank = e and length 1 — the one value, all unit axes squeezed away, padded with unit axes to rank e − 1;
+* rank < e — the value itself, padded with unit axes to rank e − 1 (the same for every row);
+* rank > e — handed on untouched (`a[i]`, whatever its length). -/
+theorem marshalled_arg_row (table : List (String × Nat)) (c : Call G V α) (m : Marshalled G V α)
+    (h : marshal table c = .ok m) (j : Nat) (k : String) (a : Arr α)
+    (hj : c.params[j]? = some (k, .arr a)) (hwf : a.WF) (hpos : 0 < a.ndim) (i : Nat) (hi : i < m.n) :
+    ∃ cv, m.args[j]? = some (k, cv) ∧
+      (a.ndim = expected table k → a.len ≠ 1 → a.len = m.n ∧ cv.row i = a.row i) ∧
+      (a.ndim = expected table k → a.len = 1 →
+        cv.row i = ⟨List.replicate (expected table k - 1 - a.squeeze.ndim) 1 ++ a.squeeze.shape, a.data⟩) ∧
+      (a.ndim < expected table k →
+        cv.row i = ⟨List.replicate (expected table k - 1 - a.ndim) 1 ++ a.shape, a.data⟩) ∧
+      (expected table k < a.ndim → cv.row i = a.row i) := by
+  obtain ⟨secured, hs, hn, hargs, -, -, -⟩ := marshal_ok h
+  -- the j-th secured entry
+  have hsec : secured[j]? = some (k, secure (expected table k) (.arr a)) := by
+    obtain ⟨y, hy, ho⟩ := mapM_ok_getElem? _ _ _ hs j _ hj
+    simp only [convert, Except.map] at hy
+    cases hy
+    exact ho
+  refine ⟨tileArg (expected table k) m.n (secure (expected table k) (.arr a)).1, ?_, ?_, ?_, ?_, ?_⟩
+  · rw [hargs, List.getElem?_map, hsec]; rfl
+  · intro he hl
+    have hcnt : (secure (expected table k) (Conv.arr a)) = (.arr a, some a.len) := by
+      simp [secure, treat, he, hl]
+    have hmem : a.len ∈ secured.filterMap (·.2.2) ++
+        [c.observers.len?, c.position.len?, c.orientation.len?].filterMap id := by
+      refine List.mem_append_left _ (List.mem_filterMap.mpr ⟨_, List.mem_of_getElem? hsec, ?_⟩)
+      rw [hcnt]
+    refine ⟨agree_eq_some hn _ hmem, ?_⟩
+    rw [hcnt]; simp [tileArg, treat, he, Conv.row]
+  · intro he hl
+    have hlt : a.squeeze.ndim < expected table k := he ▸ squeeze_ndim_lt hl hpos
+    have hne : a.squeeze.ndim ≠ expected table k := Nat.ne_of_lt hlt
+    simp only [secure, treat, he, hl, if_true, tileArg, hne, if_false, hlt, Conv.row]
+    exact tile_row _ _ _ hi _ (squeeze_WF hwf)
+  · intro hlt
+    have hne : a.ndim ≠ expected table k := Nat.ne_of_lt hlt
+    simp only [secure, treat, hne, if_false, hlt, if_true, tileArg, Conv.row]
+    simp only [reduceCtorEq, if_false, hne, hlt, if_true]
+    exact tile_row _ _ _ hi _ hwf
+  · intro hgt
+    have hne : a.ndim ≠ expected table k := Nat.ne_of_gt hgt
+    have hnl : ¬ a.ndim < expected table k := Nat.not_lt_of_gt hgt
+    simp [secure, treat, hne, hnl, tileArg, Conv.row]
+
+section
+variable [Inv G] [SMul G V] [Sub V] [Zero V]
+
+/-- **dict_interface_is_level1_rowwise** — the functional interface IS the object interface's `level1`, row by row:
+if `getB("Class", observers, position=…, orientation=…, **kwargs)` returns, then the class is registered, the call
+has a well-defined number of rows n (every counted stack length), the result has exactly n rows (shape (n, 3), or (3,)
+when n = 1 and `squeeze`), and row i is `Level2.level1` — the per-leaf evaluation that C03–C06 are about — of a
+source whose field function is the class's field function at the i-th parameter set (`paramSet m i`, see
+`marshalled_arg_row`), at the i-th pose (the single position / orientation, the only entry of a length-1 stack, or
+entry i of a stack), at the i-th observer.  Stated twice: with the one-pose source `{pos := [p], ori := [r]}`, and
+with the tiled pose lists that the code builds, read at path index i. -/
+theorem dict_interface_is_level1_rowwise (tables : List (String × List (String × Nat))) (cls : String)
+    (F : List (String × Arr α) → V → V) (c : Call G V α) (out : Level2.Out V)
+    (h : call tables cls F c = .ok out) :
+    ∃ table m, tables.lookup cls = some table ∧ marshal table c = .ok m ∧
+      out.data.length = m.n ∧
+      out.shape = (if c.squeeze then [m.n].filter (· ≠ 1) else [m.n]) ∧
+      ∀ i, i < m.n → ∃ x p r,
+        pick i c.observers = some x ∧ pick i c.position = some p ∧ pick i c.orientation = some r ∧
+        out.data[i]? = some (Level2.level1 { pos := [p], ori := [r], F := F (paramSet m i) } 0 x) ∧
+        out.data[i]? =
+          some (Level2.level1 { pos := m.position, ori := m.orientation, F := F (paramSet m i) } i x) := by
+  unfold call at h
+  split at h
+  · cases h
+  · rename_i table htab
+    split at h
+    · cases h
+    · rename_i m hm
+      cases h
+      refine ⟨table, m, htab, hm, by simp [fieldRows], rfl, ?_⟩
+      intro i hi
+      obtain ⟨ho, hp, hr⟩ := marshal_pose_lens hm
+      obtain ⟨-, -, -, -, eo, ep, er⟩ := marshal_ok hm
+      obtain ⟨x, hx⟩ := pick_isSome m.n i hi c.observers ho
+      obtain ⟨p, hpp⟩ := pick_isSome m.n i hi c.position hp
+      obtain ⟨r, hrr⟩ := pick_isSome m.n i hi c.orientation hr
+      have gx : m.observers[i]? = some x := by rw [eo, (rows_spec m.n _ ho).2 i hi, hx]
+      have gp : m.position[i]? = some p := by rw [ep, (rows_spec m.n _ hp).2 i hi, hpp]
+      have gr : m.orientation[i]? = some r := by rw [er, (rows_spec m.n _ hr).2 i hi, hrr]
+      have lp : m.position.length = m.n := by rw [ep]; exact (rows_spec m.n _ hp).1
+      have lr : m.orientation.length = m.n := by rw [er]; exact (rows_spec m.n _ hr).1
+      have row : (fieldRows F m)[i]? = some (r • F (paramSet m i) (r⁻¹ • (x - p))) := by
+        simp [fieldRows, hi, gx, gp, gr]
+      refine ⟨x, p, r, hx, hpp, hrr, ?_, ?_⟩
+      · rw [row]; simp [Level2.level1, Level2.clampGet]
+      · rw [row]
+        have mi : min i (m.n - 1) = i := by omega
+        simp [Level2.level1, Level2.clampGet, lp, lr, mi, gp, gr]
+
+/-- the source-frame observers handed to the field function are `r_i⁻¹ • (x_i − p_i)` of the picked values -/
+theorem local_observers_rowwise (table : List (String × Nat)) (c : Call G V α) (m : Marshalled G V α)
+    (hm : marshal table c = .ok m) (i : Nat) (hi : i < m.n) :
+    ∃ x p r, pick i c.observers = some x ∧ pick i c.position = some p ∧ pick i c.orientation = some r ∧
+      (localObs m)[i]? = some (r⁻¹ • (x - p)) := by
+  obtain ⟨ho, hp, hr⟩ := marshal_pose_lens hm
+  obtain ⟨-, -, -, -, eo, ep, er⟩ := marshal_ok hm
+  obtain ⟨x, hx⟩ := pick_isSome m.n i hi c.observers ho
+  obtain ⟨p, hpp⟩ := pick_isSome m.n i hi c.position hp
+  obtain ⟨r, hrr⟩ := pick_isSome m.n i hi c.orientation hr
+  have gx : m.observers[i]? = some x := by rw [eo, (rows_spec m.n _ ho).2 i hi, hx]
+  have gp : m.position[i]? = some p := by rw [ep, (rows_spec m.n _ hp).2 i hi, hpp]
+  have gr : m.orientation[i]? = some r := by rw [er, (rows_spec m.n _ hr).2 i hi, hrr]
+  exact ⟨x, p, r, hx, hpp, hrr, by simp [localObs, hi, gx, gp, gr]⟩
+end
+
+/-- which calls are rejected before any length is looked at, and with what: an unregistered class is
+MagpylibBadUserInput; otherwise the FIRST keyword (in call order) that cannot be converted decides — `None`:
+MagpylibBadUserInput, `[]` / a 0-d ndarray: a leaked IndexError, a list of equally long arrays of different shapes: a
+leaked ValueError -/
+theorem unregistered_class_rejected [Inv G] [SMul G V] [Sub V] [Zero V]
+    (tables : List (String × List (String × Nat))) (cls : String)
+    (F : List (String × Arr α) → V → V) (c : Call G V α) (h : tables.lookup cls = none) :
+    call tables cls F c = .error .badUserInput := by
+  simp [call, h]
+
+end dictcall
+
+/-! non-vacuity: a call on the driver's carrier (integer vectors, signed permutation matrices) with a stacked
+`dimension` (2 rows), a single `polarization`, a length-1 position stack and two orientations: n = 2, the result has
+two rows, and `marshalled_arg_row` / `dict_interface_is_level1_rowwise` apply to it -/
+namespace DictExample
+open MagpyVerif
+abbrev Vec := V3 Int
+abbrev Rot := M3 Int
+def rz : Rot := ⟨⟨0, -1, 0⟩, ⟨1, 0, 0⟩, ⟨0, 0, 1⟩⟩
+def exCall : Call Rot Vec Int :=
+  { params := [("dimension", .arr ⟨[2, 3], [1, 2, 3, 4, 5, 6]⟩), ("polarization", .arr ⟨[3], [7, 8, 9]⟩),
+               ("current", .num 5)],
+    observers := .single ⟨1, 2, 3⟩, position := .stack [⟨1, 0, 0⟩], orientation := .stack [1, rz], squeeze := true }
+/-- field function: first entry of every argument slice, added to the observer -/
+def exF (ps : List (String × Arr Int)) (x : Vec) : Vec :=
+  x + ⟨((ps.map fun p => p.2.data.headD 0).foldl (· + ·) 0), 0, 0⟩
+def exTables : List (String × List (String × Nat)) := Gen.Ndim.table
+
+example : (call exTables "Cuboid" exF exCall).toOption.map (fun o => (o.shape, o.data)) =
+    some ([2], [⟨13, 2, 3⟩, ⟨0, 18, 3⟩]) := by decide
+example : ((marshal [("dimension", 2), ("polarization", 2)] exCall).toOption.map
+    fun m => (m.n, m.args.map fun a => match a.2 with | .arr x => x.shape | .ragged _ => [])) =
+    some (2, [[2, 3], [2, 3], [2]]) := by decide
+example : (match call exTables "NoSuchClass" exF exCall with | .error .badUserInput => true | _ => false) = true := by decide
+example : (marshal [("dimension", 2)] { exCall with position := .stack [0, 0, 0] }).toOption.isNone = true := by decide
+example : (match marshal (G := Rot) (V := Vec) (α := Int) [] { exCall with params := [("current", .emptyOrZeroDim)] } with
+    | .error CallErr.indexError => true | _ => false) = true := by decide
+end DictExample
 
 /-! ### getBH_level2: which inputs are rejected; `output="dataframe"` -/
 section level2
